@@ -193,7 +193,7 @@ def run(ctx):
         if not only or 'wnaf' in only:
             from . import c02_wnaf
             c02_wnaf.run_part(ctx)
-    except Inconclusive as e_:
+    except Exception as e_:          # whatever stops the symbolic part, the native differential below still runs
         ctx.inconclusive('encoder: %s' % e_)
     if not only or 'native' in only:
         native_differential(ctx)
